@@ -329,12 +329,14 @@ def run(ctx, tier):
     results += release_per_entry(ctx)
     results += delete_walk_guard(ctx)
     results += c03.register(ctx, rule='C10.register')
+    import c06
+    results += c06.shared_freelist(ctx, rule='C10.shared-freelist')
     return dict(
         results=results, stats=dict(ctx.stats),
         explanation=(
             'Decides the links of the reuse chain, each of which, when cut, makes the file grow without bound for every overwrite workload: (release-on-begin) every successful '
             'writer begin releases pending pages into the free list it will allocate from; (reuse-before-extend) the high-water mark advances only when the free set returned None; '
-            '(persist-both) the persisted list covers free and pending pages; (reload) the persisted list is reloaded through the chosen header on open; (publish) the commit '
+            '(persist-both) the persisted list covers free and pending pages; (reload) the persisted list is reloaded in full through the chosen header on open; (shared-freelist) the shared free list changes only at the end of a commit and in open, so an abandoned writer cannot lose it; (publish) the commit '
             'publishes its free list on every exit after the header write; (deregister/register) readers deregister on drop under the id they registered. NOT decided: the plateau '
             'itself (first-fit arithmetic, fragmentation).'),
         assumptions=['bounded live data', 'readers are eventually dropped'])
